@@ -379,6 +379,7 @@ func c12(c *Ctx) {
 		}
 	}
 	c12QueryFailureAborts(c, "C12.4/failure-aborts")
+	c13DmlFailureIsReported(c, "C12.4/failed-dml-is-reported")
 	// a DDL statement works on the catalog copy of its transaction; what it changes there reaches later transactions
 	// only through the persisted catalog entries (the cache is invalidated at commit and reloaded from them). A
 	// statement that changes a column in memory and persists nothing declares a constraint that nobody will enforce.
